@@ -37,6 +37,8 @@ pub enum CovSpec {
     IndexIs(u8),
     Never,
     Undecodable,
+    /// the standard signature covenant of key k cut off after `cut` bytes (mostly inside its PushB literal)
+    Truncated(usize, usize),
     Heavy, // a covenant with a large weight (nested loops), true
 }
 
@@ -72,6 +74,11 @@ impl CovSpec {
             CovSpec::IndexIs(i) => Covenant::from_ops(&[LoadImm(9), PushI(U256::from(*i)), Eql]).to_bytes(),
             CovSpec::Never => Covenant::from_ops(&[PushI(0u8.into())]).to_bytes(),
             CovSpec::Undecodable => Bytes::from_static(&[0xee, 0x01]),
+            CovSpec::Truncated(k, cut) => {
+                let b = Covenant::std_ed25519_pk_new(keys[*k].pk).to_bytes();
+                let n = (*cut).clamp(1, b.len() - 1);
+                b.slice(0..n)
+            }
             CovSpec::Heavy => Covenant::from_ops(&[PushI(1u8.into()), Loop(30, 2), Loop(20, 1), Noop]).to_bytes(),
         }
     }
@@ -104,6 +111,16 @@ impl Wallet {
     }
     pub fn rand_spec(&mut self, r: &mut Rng, height: u64) -> CovSpec {
         let nk = self.keys.len() as u64;
+        // the covenant-centred stream: unusual covenants much more often
+        if twins() >= 6 && r.chance(1, 3) {
+            return match r.below(6) {
+                0 | 1 => CovSpec::Truncated(r.below(nk) as usize, 1 + r.below(60) as usize),
+                2 => CovSpec::Undecodable,
+                3 => CovSpec::IndexIs(r.below(3) as u8),
+                4 => CovSpec::ValueLt(*r.pick(&[100u128, 1_000_000, 1 << 40])),
+                _ => CovSpec::TimeLock(height + r.below(3)),
+            };
+        }
         match r.below(20) {
             0..=8 => CovSpec::StdNew(r.below(nk) as usize),
             9..=11 => CovSpec::StdLegacy(r.below(nk) as usize),
@@ -113,7 +130,11 @@ impl Wallet {
             16 => CovSpec::TimeLock(height + r.below(3)),
             17 => CovSpec::IndexIs(r.below(3) as u8),
             18 => CovSpec::Heavy,
-            _ => if r.chance(1, 2) { CovSpec::Never } else { CovSpec::Undecodable },
+            _ => match r.below(4) {
+                0 => CovSpec::Never,
+                1 => CovSpec::Undecodable,
+                _ => CovSpec::Truncated(r.below(nk) as usize, 1 + r.below(60) as usize),
+            },
         }
         .clone()
     }
@@ -788,8 +809,18 @@ pub fn mutate(r: &mut Rng, w: &Wallet, tx: &mut Transaction, inputs_known: &[WCo
             "fee=min-1"
         }
         4 => {
-            tx.covenants.clear();
-            "no-covenants"
+            if r.chance(1, 2) {
+                tx.covenants.clear();
+                "no-covenants"
+            } else {
+                // nothing goes in: no inputs, no fee, and only outputs no input has to match
+                tx.inputs.clear();
+                tx.fee = CoinValue(0);
+                let keep_erg = tx.kind == TxKind::DoscMint && r.chance(1, 2);
+                tx.outputs.retain(|o| keep_erg && o.denom == Denom::Erg);
+                tx.sigs.clear();
+                "inputless"
+            }
         }
         5 => {
             // any position: a later input's signature matters as much as the first one's
